@@ -6,7 +6,7 @@
      bash_quote, bash_join        MODEL of core/bash.py
      bash_words                   SPEC: bash's word splitting and quote removal (BashQuote.v)
      reread w                     what the walker hands the ladder for a word bash_quote wrote:
-                                  strip_quotes (bash_quote w) - only the outer quotes are removed
+                                  strip_quotes (bash_quote w), strip_quotes = bash quote removal
      modelled tokens              MODEL of the handlers' classify() (Wrappers.v); HWords cmds remote =
                                   "delegate bash_join of each command, ;-joined, with that remote flag"
      hverdict astr h              what step 5 of the ladder answers for that classification
@@ -14,10 +14,13 @@
      judge remote words           ORACLE: the decision ladder (Model/Ladder.v of another package)
      astr remote text             ORACLE: analyze(text) = parser + walker + ladder
    The plain-form exactness of the wrapper loop (time/timeout/nice/nohup/command) and the
-   env-assignment prefix law are theorems of the ladder model: Props of Model/Ladder.v
-   (C04_exact_plain, C04_env_prefix live there). *)
+   env-assignment prefix law are theorems of the ladder model: Props/C04L.v.
+   The docker/kubectl exec extraction theorems (handler half of C13) are in Props/C13H.v.
+   The models follow /repo after the repairs 23c5075 (env) fcba02c (fd) b4cdef6 (find) 53c5c7c (shell)
+   6c3ffaf (xargs) 5143c77 (quote removal); what was refuted before them is now proved, and the old
+   behaviour is kept as Legacy definitions with their refutations. *)
 From DippyV Require Import Base.Str Base.Verdict Gen.Tables Model.BashQuote Model.Getopt Model.Wrappers Model.WrapSpec
-  Proofs.VerdictP Proofs.BashQuoteP Proofs.WrappersP.
+  Proofs.VerdictP Proofs.BashQuoteP Proofs.WrappersP Proofs.WrapOptsP.
 
 (* ------------------------------------------------------------------ re-quoting *)
 (* faithful for EVERY string: bash reads bash_quote s back as the single word s *)
@@ -43,15 +46,13 @@ Theorem C04_bare_chars_are_inert : forall c : N, quote_safe c = true ->
 Proof. exact safe_char. Qed.
 Print Assumptions C04_bare_chars_are_inert.
 
-(* what Dippy itself reads back is NOT always the word: only the outer quotes are stripped, so a word
-   containing a single quote reaches the ladder in its escaped spelling (harmless for the verdict order
-   as far as the search found, but the reason the no-launder statements below carry no_sq) *)
+(* what Dippy itself reads back (analyzer._strip_quotes, quote removal): the word itself, for every word
+   except those where a dollar sign ends up right before a quote (w ends in a dollar sign, or has one before a quote):
+   the walker then keeps the quoted spelling - the reason the statements below carry [clean] *)
 Theorem C04_reread : forall w : str,
-  (no_sq w = true -> reread w = w) /\ (no_sq w = false -> reread w = esc_sq w).
-Proof.
-  exact (fun w => conj (reread_no_sq w)
-                       (fun H => reread_quoted w (proj1 (negb_false_iff _) H))).
-Qed.
+  (clean w = true -> reread w = w) /\ (clean w = false -> reread w = bash_quote w) /\
+  (mem_ch DOLLAR w = false -> clean w = true).
+Proof. exact (fun w => conj (reread_clean w) (conj (reread_dollar w) (no_dollar_clean w))). Qed.
 Print Assumptions C04_reread.
 
 (* ------------------------------------------------------------------ no laundering *)
@@ -71,7 +72,7 @@ Section Oracles.
     Forall (fun c => c <> []) inners ->
     forall c, In c inners ->
       vle (judge r (map reread c)) (hverdict astr (HWords inners r)) = true /\
-      (forallb no_sq c = true -> vle (judge r c) (hverdict astr (HWords inners r)) = true).
+      (forallb clean c = true -> vle (judge r c) (hverdict astr (HWords inners r)) = true).
   Proof.
     exact (fun Hw Hs tokens inners r _ _ Hall c Hin =>
              conj (extracted_never_laundered judge astr Hw Hs inners r c Hall Hin)
@@ -80,7 +81,7 @@ Section Oracles.
 
   (* with a single inner command the verdict is EXACTLY the inner command's: wrapping adds no prompt *)
   Theorem C04_exact_delegate : Hwords_t -> Hseq_t ->
-    forall c r, c <> [] -> forallb no_sq c = true -> hverdict astr (HWords [c] r) = judge r c.
+    forall c r, c <> [] -> forallb clean c = true -> hverdict astr (HWords [c] r) = judge r c.
   Proof. exact (fun Hw Hs c r => exact_of_extract judge astr Hw Hs (HWords [c] r) c r eq_refl). Qed.
 
   (* sh -c S / env -S S: the string from the command line is analysed as it stands *)
@@ -91,7 +92,27 @@ Print Assumptions C04_no_launder.
 Print Assumptions C04_exact_delegate.
 Print Assumptions C04_string_delegate.
 
+
 (* ------------------------------------------------------------------ extraction = execution, per wrapper *)
+(* sh/bash/dash, EVERY invocation the specification understands (long options with one or two dashes,
+   option clusters with either sign, -o/-O names, -- and -, options after -c, operands after the string):
+   if the shell runs a command string, exactly that string is delegated ... *)
+Theorem C04_extract_bash : forall args s, bash_exec args = Some (SString s) ->
+  shell_h ($"bash" :: args) = match s with [] => HAsk | _ => HString s end.
+Proof. exact bash_extract_general. Qed.
+Print Assumptions C04_extract_bash.
+Theorem C04_extract_sh : forall base args s, In base [$"sh"; $"dash"] -> dash_exec args = Some (SString s) ->
+  shell_h (base :: args) = match s with [] => HAsk | _ => HString s end.
+Proof. exact dash_extract_general. Qed.
+Print Assumptions C04_extract_sh.
+(* ... and if it runs a script file or reads commands from stdin, nothing is delegated: the handler asks
+   (bash script.sh -c ls, bash script.sh --help, bash -s) *)
+Theorem C04_shell_script_asks :
+  (forall args act, bash_exec args = Some act -> (forall s, act <> SString s) -> act <> SNothing -> shell_h ($"bash" :: args) = HAsk) /\
+  (forall base args act, In base [$"sh"; $"dash"] -> dash_exec args = Some act -> (forall s, act <> SString s) -> shell_h (base :: args) = HAsk).
+Proof. exact (conj bash_script_asks dash_script_asks). Qed.
+Print Assumptions C04_shell_script_asks.
+
 (* env [NAME=VALUE]... COMMAND ARG... *)
 Theorem C04_extract_env : forall assigns c0 cs,
   forallb assign_word assigns = true -> dash c0 = false -> has_eq c0 = false ->
@@ -99,160 +120,106 @@ Theorem C04_extract_env : forall assigns c0 cs,
 Proof. exact env_extract. Qed.
 Print Assumptions C04_extract_env.
 
-(* env OPTION... [NAME=VALUE]... COMMAND ARG... for every sequence of the option spellings of env_opts:
-   -i -v and their clusters, --ignore-environment --debug --list-signal-handling --block-signal
-   --default-signal --ignore-signal (also abbreviated), -u NAME, --unset NAME, -C DIR, --chdir DIR
-   (separate), --unset=NAME --uns=NAME --chdir=DIR --ch=DIR (=-joined), -uNAME, -CDIR (attached) -
-   every NAME that env accepts, every DIR, every assignment list and every command *)
+(* env OPTION... [NAME=VALUE]... COMMAND ARG... for every sequence of option words of env_opts:
+   clusters of -i -v (any length), -u NAME / -C DIR as last letter of a cluster with the value separate or
+   attached, --NAME for EVERY spelling NAME that getopt_long resolves - exactly or as a unique abbreviation -
+   to ignore-environment debug list-signal-handling block-signal default-signal ignore-signal, and
+   --unset / --chdir in every resolvable spelling with a separate or =-joined value; every NAME env accepts,
+   every DIR, every assignment list, every command (the spellings 23c5075 repaired included) *)
 Theorem C04_extract_env_opts : forall opts assigns c0 cs,
   env_opts opts -> forallb assign_word assigns = true -> dash c0 = false -> has_eq c0 = false ->
   env_h ($"env" :: opts ++ assigns ++ c0 :: cs) = HWords [c0 :: cs] false /\
   env_exec (opts ++ assigns ++ c0 :: cs) = Some [c0 :: cs].
 Proof. exact env_extract_opts. Qed.
 Print Assumptions C04_extract_env_opts.
+(* the handler's list of candidate long names is [m] whenever getopt_long resolves the spelling to m *)
+Theorem C04_env_abbreviations : forall n m k, resolve_long n (longs env_spec) = Some (m, k) -> long_names ENV_LONG_OPTIONS n = [m].
+Proof. exact (fun n m k => long_names_resolve ENV_LONG_OPTIONS (longs env_spec) n m k (proj1 env_tables_perm) (proj2 env_tables_perm)). Qed.
+Print Assumptions C04_env_abbreviations.
 
-(* xargs COMMAND ARG... and xargs -- COMMAND ARG... *)
+(* xargs COMMAND ARG... and xargs -- COMMAND ARG...: the command plus one unknown appended argument is judged *)
 Theorem C04_extract_xargs : forall c0 cs, dash c0 = false -> xargs_unsafe (c0 :: cs) = false ->
-  xargs_h ($"xargs" :: c0 :: cs) = HWords [c0 :: cs] false /\ xargs_exec (c0 :: cs) = Some [c0 :: cs].
+  xargs_h ($"xargs" :: c0 :: cs) = HWords [(c0 :: cs) ++ [PLACEHOLDER]] false /\ xargs_exec (c0 :: cs) = Some [c0 :: cs].
 Proof. exact xargs_extract. Qed.
 Print Assumptions C04_extract_xargs.
 Theorem C04_extract_xargs_ddash : forall c, c <> [] ->
-  xargs_h ($"xargs" :: $"--" :: c) = HWords [c] false /\ xargs_exec ($"--" :: c) = Some [c].
+  xargs_h ($"xargs" :: $"--" :: c) = HWords [c ++ [PLACEHOLDER]] false /\ xargs_exec ($"--" :: c) = Some [c].
 Proof. exact xargs_extract_ddash. Qed.
 Print Assumptions C04_extract_xargs_ddash.
 
-(* find PATH... -exec COMMAND ARG... ;   (any command whose words are not terminators/-ok/-delete) *)
+(* find PATH... -exec COMMAND ARG... ;  for every command whose words are not ; \; -ok -okdir -delete and that
+   has no + right after {} (a + anywhere else is an ordinary argument, as for find) *)
 Theorem C04_extract_find : forall paths c,
-  forallb plain_path paths = true -> forallb find_word_ok c = true -> c <> [] ->
+  forallb plain_path paths = true -> forallb find_word_ok c = true -> no_plus_after_braces false c = true -> c <> [] ->
   find_h ($"find" :: paths ++ $"-exec" :: c ++ [$";"]) = HWords [c] false /\
   find_exec (paths ++ $"-exec" :: c ++ [$";"]) = Some [c].
-Proof. exact (fun paths c Hp Hc Hn => conj (find_extract_h paths c Hp Hc Hn) (find_extract_spec paths c Hp Hc Hn)). Qed.
+Proof. exact (fun paths c Hp Hc Hq Hn => conj (find_extract_h paths c Hp Hc Hq Hn) (find_extract_spec paths c Hp Hc Hq Hn)). Qed.
 Print Assumptions C04_extract_find.
 
-(* sh/bash OPTION-WORDS -c S ARG... : the handler picks S whatever non-c words precede; bash and dash run S *)
-Theorem C04_extract_shell : forall base pre cflag s rest,
-  is_c_flag base = false -> Forall (fun x => is_c_flag x = false) pre -> is_c_flag cflag = true -> s <> [] ->
-  shell_h (base :: pre ++ cflag :: s :: rest) = HString s.
-Proof. exact shell_c_extract. Qed.
-Print Assumptions C04_extract_shell.
-Theorem C04_shell_spec : forall s rest, optlike s = false ->
-  bash_exec ($"-c" :: s :: rest) = Some (SString s) /\ dash_exec ($"-c" :: s :: rest) = Some (SString s).
-Proof. exact shell_c_spec. Qed.
-Print Assumptions C04_shell_spec.
+(* the inner command a handler delegates is always a suffix of the command line *)
+Theorem C04_inner_is_suffix : forall l, suffix_of (xargs_skip l) l.
+Proof. exact xargs_skip_suffix. Qed.
+Print Assumptions C04_inner_is_suffix.
 
-(* ------------------------------------------------------------------ C13 (handler half) *)
-(* docker|podman exec OPTIONS CONTAINER COMMAND ARG... for every sequence of option spellings of dk_opts
-   ( -i -t -d and their clusters, --interactive --tty --detach --privileged, -e V  --env V  -w V  -u V
-   --env-file V with V ANY word, --env=V ... --detach-keys=V, -eV -wV -uV ), every container name not
-   starting with a dash and every inner command: the handler delegates exactly the command docker
-   sends to the container, with remote = true. *)
-Theorem C13_extract_docker : forall base opts ctr cmd,
-  In base [$"docker"; $"podman"] -> dk_opts opts -> dash ctr = false -> cmd <> [] ->
-  modelled (base :: $"exec" :: opts ++ ctr :: cmd) = Some (HWords [cmd] true) /\
-  wrapper_exec (base :: $"exec" :: opts ++ ctr :: cmd) = Some [cmd].
-Proof. exact docker_extract_full. Qed.
-Print Assumptions C13_extract_docker.
+(* ------------------------------------------------------------------ formerly refuted, now proved instances *)
+Theorem C04_repaired_witnesses :
+  (modelled (w ["bash"; "script.sh"; "-c"; "ls"]) = Some HAsk /\
+   modelled (w ["sh"; "script.sh"; "-c"; "ls"]) = Some HAsk /\
+   modelled (w ["bash"; "-rcfile"; "ls"; "-c"; "rm x"]) = Some (HString $"rm x") /\
+   modelled (w ["bash"; "-c"; "-e"; "zap"]) = Some (HString $"zap") /\
+   modelled (w ["bash"; "script.sh"; "--help"]) = Some HAsk) /\
+  (modelled (w ["find"; "."; "-exec"; "env"; "-u"; "+"; "rm"; "x"; ";"]) = Some (HWords [w ["env"; "-u"; "+"; "rm"; "x"]] false) /\
+   wrapper_exec (w ["find"; "."; "-exec"; "env"; "-u"; "+"; "rm"; "x"; ";"]) = Some [w ["env"; "-u"; "+"; "rm"; "x"]]) /\
+  ((modelled (w ["env"; "-iu"; "ls"; "rm"; "x"]) = Some (HWords [w ["rm"; "x"]] false) /\
+    wrapper_exec (w ["env"; "-iu"; "ls"; "rm"; "x"]) = Some [w ["rm"; "x"]]) /\
+   (modelled (w ["env"; "--uns"; "ls"; "rm"; "x"]) = Some (HWords [w ["rm"; "x"]] false) /\
+    wrapper_exec (w ["env"; "--uns"; "ls"; "rm"; "x"]) = Some [w ["rm"; "x"]]) /\
+   modelled (w ["env"; "--split=rm x"]) = Some (HString $"rm x")) /\
+  ((modelled (w ["xargs"; "-0I"; "ls"; "rm"; "x"]) = Some (HWords [w ["rm"; "x"]] false) /\
+    wrapper_exec (w ["xargs"; "-0I"; "ls"; "rm"; "x"]) = Some [w ["rm"; "x"]]) /\
+   (modelled (w ["xargs"; "--process-slot"; "ls"; "rm"; "x"]) = Some (HWords [w ["rm"; "x"; "{}"]] false) /\
+    wrapper_exec (w ["xargs"; "--process-slot"; "ls"; "rm"; "x"]) = Some [w ["rm"; "x"]]) /\
+   modelled (w ["xargs"; "env"]) = Some (HWords [w ["env"; "{}"]] false)) /\
+  (modelled (w ["fd"; "-x"; "ls"; ";"; "-x"; "rm"]) = Some (HWords [w ["ls"]; w ["rm"]] false) /\
+   wrapper_exec (w ["fd"; "-x"; "ls"; ";"; "-x"; "rm"]) = Some [w ["ls"]; w ["rm"]]).
+Proof. exact (conj shell_formerly_refuted (conj find_formerly_refuted (conj env_formerly_refuted (conj xargs_formerly_refuted fd_formerly_refuted)))). Qed.
+Print Assumptions C04_repaired_witnesses.
 
-(* kubectl|k exec WORDS -- COMMAND ARG... where WORDS are pod names, -i -t -it -q --stdin --tty, value
-   flags with a separate value other than the word -- , or =-joined values (kc_mid) *)
-Theorem C13_extract_kubectl : forall base mid ps cmd,
-  In base [$"kubectl"; $"k"] -> kc_mid mid ps -> cmd <> [] ->
-  modelled (base :: $"exec" :: mid ++ $"--" :: cmd) = Some (HWords [cmd] true) /\
-  kubectl_exec ($"exec" :: mid ++ $"--" :: cmd) = Some [cmd].
-Proof. exact kubectl_extract. Qed.
-Print Assumptions C13_extract_kubectl.
-
-(* the inner command a handler delegates is always a suffix of the command line: never invented,
-   reordered or re-assembled *)
-Theorem C13_inner_is_suffix :
-  (forall l, suffix_of (docker_exec_inner l) l) /\ (forall l s, after_ddash l = Some s -> suffix_of s l) /\
-  (forall l, suffix_of (xargs_skip l) l) /\ (forall l c r, env_scan l = HWords [c] r -> suffix_of c l /\ r = false).
-Proof. exact (conj docker_inner_suffix (conj after_ddash_suffix (conj xargs_skip_suffix env_scan_words_suffix))). Qed.
-Print Assumptions C13_inner_is_suffix.
-
-(* ------------------------------------------------------------------ refutations of the full statements
-   FULL STATEMENT (false of the faithful model, for every wrapper below):
-     forall args, wrapper_exec (W :: args) = Some inners -> modelled (W :: args) = Some (HWords inners r)
-   Each witness was confirmed on the real code and with the real tool (notes/c04-findings.md). *)
-Theorem C13_extract_docker_refuted :
-  (modelled (w ["docker"; "exec"; "--"; "ls"; "rm"; "x"]) = Some (HWords [w ["ls"; "rm"; "x"]] true) /\
-   wrapper_exec (w ["docker"; "exec"; "--"; "ls"; "rm"; "x"]) = Some [w ["rm"; "x"]]) /\
-  (modelled (w ["docker"; "exec"; "-ie"; "A=1"; "ls"; "rm"; "x"]) = Some (HWords [w ["ls"; "rm"; "x"]] true) /\
-   wrapper_exec (w ["docker"; "exec"; "-ie"; "A=1"; "ls"; "rm"; "x"]) = Some [w ["rm"; "x"]]) /\
-  (modelled (w ["docker"; "exec"; "--detach-keys"; "a"; "cat"; "rm"; "x"]) = Some (HWords [w ["cat"; "rm"; "x"]] true) /\
-   wrapper_exec (w ["docker"; "exec"; "--detach-keys"; "a"; "cat"; "rm"; "x"]) = Some [w ["rm"; "x"]]).
-Proof. exact docker_extract_refuted. Qed.
-Print Assumptions C13_extract_docker_refuted.
-
-Theorem C13_extract_kubectl_refuted :
-  modelled (w ["kubectl"; "exec"; "--cache-dir"; "--"; "ls"; "--"; "rm"; "x"]) = Some (HWords [w ["ls"; "--"; "rm"; "x"]] true) /\
-  wrapper_exec (w ["kubectl"; "exec"; "--cache-dir"; "--"; "ls"; "--"; "rm"; "x"]) = Some [w ["rm"; "x"]].
-Proof. exact kubectl_extract_refuted. Qed.
-Print Assumptions C13_extract_kubectl_refuted.
-
-Theorem C04_extract_shell_refuted :
-  (modelled (w ["bash"; "script.sh"; "-c"; "ls"]) = Some (HString $"ls") /\
+(* Legacy definitions (the handlers before the repairs) and their refutations, kept to recognise a revert *)
+Theorem C04_legacy_refuted :
+  (legacy_after_c (w ["bash"; "script.sh"; "-c"; "ls"]) = Some (w ["ls"]) /\
    shell_exec (w ["bash"; "script.sh"; "-c"; "ls"]) = Some (SFile $"script.sh")) /\
-  (modelled (w ["sh"; "script.sh"; "-c"; "ls"]) = Some (HString $"ls") /\
-   shell_exec (w ["sh"; "script.sh"; "-c"; "ls"]) = Some (SFile $"script.sh")) /\
-  (modelled (w ["bash"; "-rcfile"; "ls"; "-c"; "rm x"]) = Some (HString $"ls") /\
-   shell_exec (w ["bash"; "-rcfile"; "ls"; "-c"; "rm x"]) = Some (SString $"rm x")).
-Proof. exact shell_extract_refuted. Qed.
-Print Assumptions C04_extract_shell_refuted.
+  (legacy_env_scan (w ["-iu"; "ls"; "rm"; "x"]) = w ["ls"; "rm"; "x"] /\ env_exec (w ["-iu"; "ls"; "rm"; "x"]) = Some [w ["rm"; "x"]]).
+Proof. exact (conj legacy_shell_refuted legacy_env_refuted). Qed.
+Print Assumptions C04_legacy_refuted.
 
-Theorem C04_extract_find_refuted :
-  modelled (w ["find"; "."; "-exec"; "env"; "-u"; "+"; "rm"; "x"; ";"]) = Some (HWords [w ["env"; "-u"]] false) /\
-  wrapper_exec (w ["find"; "."; "-exec"; "env"; "-u"; "+"; "rm"; "x"; ";"]) = Some [w ["env"; "-u"; "+"; "rm"; "x"]].
-Proof. exact find_extract_refuted. Qed.
-Print Assumptions C04_extract_find_refuted.
-
-Theorem C04_extract_env_refuted :
-  (modelled (w ["env"; "-iu"; "ls"; "rm"; "x"]) = Some (HWords [w ["ls"; "rm"; "x"]] false) /\
-   wrapper_exec (w ["env"; "-iu"; "ls"; "rm"; "x"]) = Some [w ["rm"; "x"]]) /\
-  (modelled (w ["env"; "--uns"; "ls"; "rm"; "x"]) = Some (HWords [w ["ls"; "rm"; "x"]] false) /\
-   wrapper_exec (w ["env"; "--uns"; "ls"; "rm"; "x"]) = Some [w ["rm"; "x"]]).
-Proof. exact env_extract_refuted. Qed.
-Print Assumptions C04_extract_env_refuted.
-
+(* STILL refuted on /repo HEAD (known finding C04-xargs-e-separate-word, pinned by tests/cli/test_xargs.py):
+   FULL STATEMENT  forall args, xargs_exec args = Some [c] -> xargs_h (xargs :: args) = HWords [c ++ [{}]] false *)
 Theorem C04_extract_xargs_refuted :
-  (modelled (w ["xargs"; "-0I"; "ls"; "rm"; "x"]) = Some (HWords [w ["ls"; "rm"; "x"]] false) /\
-   wrapper_exec (w ["xargs"; "-0I"; "ls"; "rm"; "x"]) = Some [w ["rm"; "x"]]) /\
-  (modelled (w ["xargs"; "--process-slot"; "ls"; "rm"; "x"]) = Some (HWords [w ["ls"; "rm"; "x"]] false) /\
-   wrapper_exec (w ["xargs"; "--process-slot"; "ls"; "rm"; "x"]) = Some [w ["rm"; "x"]]) /\
-  (modelled (w ["xargs"; "-e"; "STOP"; "head"]) = Some (HWords [w ["head"]] false) /\
-   wrapper_exec (w ["xargs"; "-e"; "STOP"; "head"]) = Some [w ["STOP"; "head"]]).
-Proof. exact xargs_extract_refuted. Qed.
+  modelled (w ["xargs"; "-e"; "STOP"; "head"]) = Some (HWords [w ["head"; "{}"]] false) /\
+  wrapper_exec (w ["xargs"; "-e"; "STOP"; "head"]) = Some [w ["STOP"; "head"]].
+Proof. exact xargs_e_refuted. Qed.
 Print Assumptions C04_extract_xargs_refuted.
 
-Theorem C04_extract_fd_refuted :
-  modelled (w ["fd"; "-x"; "ls"; ";"; "-x"; "rm"]) = Some (HWords [w ["ls"; ";"; "-x"; "rm"]] false) /\
-  wrapper_exec (w ["fd"; "-x"; "ls"; ";"; "-x"; "rm"]) = Some [w ["ls"]; w ["rm"]].
-Proof. exact fd_extract_refuted. Qed.
-Print Assumptions C04_extract_fd_refuted.
-
 (* ------------------------------------------------------------------ non-vacuity *)
-Example C04_example_quote : bash_quote $"it's a; rm" = $"'it'""'""'s a; rm'" /\ bash_words $"ls '-l a'  ""x""'y'" = Some [$"ls"; $"-l a"; $"xy"].
+Example C04_example_quote : bash_quote $"it's a; rm" = $"'it'""'""'s a; rm'" /\ bash_words $"ls '-l a'  ""x""'y'" = Some [$"ls"; $"-l a"; $"xy"]
+  /\ reread $"it's a; rm" = $"it's a; rm" /\ reread $"cost$" = $"'cost$'".
+Proof. vm_compute. repeat split; reflexivity. Qed.
+Example C04_example_bash :
+  bash_exec (w ["--norc"; "-ex"; "-o"; "pipefail"; "-c"; "-u"; "rm -rf x"; "arg0"]) = Some (SString $"rm -rf x") /\
+  bash_exec (w ["-e"; "script.sh"; "-c"; "ls"]) = Some (SFile $"script.sh").
 Proof. vm_compute. split; reflexivity. Qed.
-Example C13_example_docker :
-  dk_opts (w ["-it"; "-e"; "--"; "--env=A=1"; "-wdir"]) /\
-  modelled (w ["docker"; "exec"; "-it"; "-e"; "--"; "--env=A=1"; "-wdir"; "web"; "rm"; "-rf"; "/"]) = Some (HWords [w ["rm"; "-rf"; "/"]] true).
-Proof.
-  split; [|vm_compute; reflexivity].
-  apply dk_bool; [cbn; tauto|]. apply dk_sep; [cbn; tauto|].
-  apply (dk_eq $"--env=" $"A=1"); [cbn; tauto|]. apply (dk_att $"-w" $"dir"); [cbn; tauto|discriminate|]. constructor.
-Qed.
 Example C04_example_env :
-  env_opts (w ["-iv"; "-u"; "HOME"; "--chdir=/tmp"; "-uPATH"; "--block-signal"]) /\
-  env_h (w ["env"; "-iv"; "-u"; "HOME"; "--chdir=/tmp"; "-uPATH"; "--block-signal"; "A=1"; "rm"; "-rf"; "x"]) = HWords [w ["rm"; "-rf"; "x"]] false /\
-  env_exec (w ["-iv"; "-u"; "HOME"; "--chdir=/tmp"; "-uPATH"; "--block-signal"; "A=1"; "rm"; "-rf"; "x"]) = Some [w ["rm"; "-rf"; "x"]].
+  env_opts (w ["-iv"; "-iu"; "HOME"; "--ch=/tmp"; "-vuPATH"; "--block"; "--uns"; "X"]).
 Proof.
-  split; [|vm_compute; split; reflexivity].
-  apply eo_bool; [cbn; tauto|]. apply eo_unset; [cbn; tauto|reflexivity|].
-  apply (eo_chdir_eq $"--chdir=" $"/tmp"); [cbn; tauto|]. apply (eo_unset_att $"PATH"); [reflexivity|].
-  apply eo_bool; [cbn; tauto|]. constructor.
+  apply (eo_cluster [105; 118]); [discriminate|reflexivity|].
+  apply (eo_unset_sep [105] $"HOME"); [reflexivity|reflexivity|].
+  apply (eo_long_chdir_eq $"ch" AReq $"/tmp"); [reflexivity|vm_compute; reflexivity|].
+  apply (eo_unset_att [118] $"PATH"); [reflexivity|reflexivity|].
+  apply (eo_long $"block" $"block-signal" AOpt); [reflexivity|vm_compute; reflexivity|cbn; tauto|].
+  apply (eo_long_unset_sep $"uns" AReq $"X"); [reflexivity|vm_compute; reflexivity|reflexivity|]. constructor.
 Qed.
 Example C04_example_oracles_satisfiable :
-  (* the two oracle hypotheses hold, e.g., for the analysis that asks for everything but the empty text *)
   let judge := fun (_ : bool) (_ : list str) => Ask in
   let astr := fun (_ : bool) (s : str) => match s with [] => Allow | _ => Ask end in
   forall r ws, ws <> [] -> astr r (bash_join ws) = judge r (map reread ws).
